@@ -3,9 +3,10 @@ From Octo Require Export ExprTc.
 From Octo Require Export ExprCases.
 
 (* column types, the logical expression, what the REAL typechecker produced (as pexpr) or that it panicked,
-   evaluations: (variable frames, observed outcome) *)
+   evaluations: (variable frames, the calls of abstractly modelled bodies made during this evaluation with their
+   results, observed outcome) *)
 Inductive c08_case :=
-| C8 (env : list sty) (le : option lexpr) (tc_obs : tcres pexpr) (runs : list (vctx * outcome value))
+| C8 (env : list sty) (le : option lexpr) (tc_obs : tcres pexpr) (runs : list (vctx * list call_rec * outcome value))
 (* query slice: the schema a typechecked plan reports (what --describe shows), as kind sets, and the records
    the materialised plan produced *)
 | C8Q (schema : list sty) (rows : list (list value)).
@@ -22,7 +23,7 @@ Definition c08_tie_tc (c : c08_case) : bool :=
 (* correspondence 2: the evaluation model agrees on every run *)
 Definition c08_tie_eval (c : c08_case) : bool :=
   match c with
-  | C8 _ _ (TcOk pe) runs => forallb (fun r => tie_outcome (peval (fst r) pe) (snd r)) runs
+  | C8 _ _ (TcOk pe) runs => forallb (fun r => let '(ctx, calls, obs) := r in tie_outcome (peval (orc_of calls) ctx pe) obs) runs
   | _ => true
   end.
 
@@ -38,8 +39,9 @@ Definition c08_tie_pwt (c : c08_case) : bool :=
 Definition c08_spec_type (c : c08_case) : bool :=
   match c with
   | C8 env _ (TcOk pe) runs =>
-      forallb (fun r => if ctx_conforms (fst r) env
-                        then match snd r with Ok v => has_type v (ptype pe) | _ => true end
+      forallb (fun r => let '(ctx, _, obs) := r in
+                        if ctx_conforms ctx env
+                        then match obs with Ok v => has_type v (ptype pe) | _ => true end
                         else true) runs
   | C8Q schema rows => forallb (fun r => row_conforms r schema) rows
   | _ => true
